@@ -244,14 +244,23 @@ def run_case(arg):
         for p, (data, mt) in exp.items():
             k = r.random()
             rel = p[1:]
-            if k < 0.45:
+            # the METADATA of what is already there is an axis of its own: written just now, carrying exactly the recorded mtime (a copy made
+            # with `cp -p` / `rsync -t`, an earlier restore edited in place by a tool that preserves timestamps), one tick off, the epoch
+            pmt = r.choice([None, None, mt, mt, mt, mt + 1, 1])
+            if k < 0.4:
                 continue
-            elif k < 0.6:
-                pre[rel] = (data[:len(data) // 2], None)
-            elif k < 0.8:
-                pre[rel] = (data + r.randbytes(r.choice([1, 7, 200])), None)
+            elif k < 0.52:
+                pre[rel] = (data[:len(data) // 2], pmt)
+            elif k < 0.68:
+                pre[rel] = (data + r.randbytes(r.choice([1, 7, 200])), pmt)
+            elif k < 0.84:
+                pre[rel] = (bytes(b ^ 0x5A for b in data), pmt)
             else:
-                pre[rel] = (bytes(b ^ 0x5A for b in data), None)
+                # same length, a few bytes different (an earlier restored copy damaged in place)
+                dmg = bytearray(data)
+                for _ in range(min(len(dmg), r.choice([1, 3, 64]))):
+                    dmg[r.randrange(len(dmg))] ^= r.randrange(1, 256)
+                pre[rel] = (bytes(dmg), pmt)
         bystanders = {'unrelated/keep.me': (b'keep', 10 ** 18 + 1), 'top.txt': (b'', 10 ** 18 + 2)}
         R.write_tree(tgt, pre)
         R.write_tree(tgt, bystanders)
@@ -364,11 +373,12 @@ def execute_content(case, seed, slot, tier):
                               'lens': lens, 'order': order}, {'per_file': impl_obs, 'stream_length': sum(lens)}, 'records'))
         # ---- the pre-existing target
         pre = {}
-        for f in case['files']:
+        for fi, f in enumerate(case['files']):
             p = str(src / f['name'])
             old = CC.make_pre(None if f['pre'] is None else tuple(f['pre']), tree[f['name']][0])
             if old is not None:
-                pre[p[1:]] = (old, None)
+                # every other pre-existing target carries exactly the recorded mtime (a timestamp-preserving copy of other content)
+                pre[p[1:]] = (old, tree[f['name']][1] if fi % 2 == 0 else None)
         bystanders = {'unrelated/keep.me': (b'keep', 10 ** 18 + 1)}
         R.write_tree(tgt, pre)
         R.write_tree(tgt, bystanders)
